@@ -5,6 +5,7 @@ import (
 	"fmt"
 	"math/big"
 	"os"
+	"os/exec"
 	"path/filepath"
 	"runtime"
 	"strings"
@@ -59,6 +60,10 @@ func failingThenValid(r *Rng) (bad, good *SX) {
 func concOp(r0 *Rng, shared []byte) string {
 	kind := r0.Intn(concKinds)
 	r := r0.Fork() // every operation draws exactly twice from its goroutine's generator, so the checker can re-derive it
+	return concOpKind(kind, r, shared)
+}
+
+func concOpKind(kind int, r *Rng, shared []byte) string {
 	return run(func() string {
 		switch kind {
 		case 16: // decoding EAP-AKA' packets with unassigned / malformed attributes: the error paths (which format values for messages)
@@ -143,7 +148,9 @@ func concOp(r0 *Rng, shared []byte) string {
 			s := genSuite(r)
 			g := []string{"2", "14"}[r.Intn(2)]
 			prop := &message.Proposal{ProtocolID: message.TypeIKE}
-			mk := func(ty uint8, id uint16) *message.Transform { return &message.Transform{TransformType: ty, TransformID: id} }
+			mk := func(ty uint8, id uint16) *message.Transform {
+				return &message.Transform{TransformType: ty, TransformID: id}
+			}
 			prop.DiffieHellmanGroup = append(prop.DiffieHellmanGroup, mk(4, map[string]uint16{"2": 2, "14": 14}[g]))
 			prop.EncryptionAlgorithm = append(prop.EncryptionAlgorithm, &message.Transform{TransformType: 1, TransformID: 12, AttributePresent: true,
 				AttributeFormat: 1, AttributeType: 14, AttributeValue: uint16(encrKeyLen[s.e] * 8)})
@@ -245,6 +252,34 @@ func runC18(c *Ctx) error {
 		"every result compared with the sequential run of the same sequence; built with the Go race detector; non-trivial = every concurrent operation; distinct by (round, goroutine, step)"
 	if c.Replay != "" {
 		return nil
+	}
+	// cold starts first (see coldStart)
+	if exe, err := os.Executable(); err == nil {
+		for k, n := 0, c.N(3, 12); k < n; k++ {
+			seed := rng.U64()
+			cmd := exec.Command(exe)
+			cmd.Env = append(os.Environ(), fmt.Sprintf("VERIF_COLD=%d", seed))
+			out, err := cmd.CombinedOutput()
+			r.ImplRuns++
+			r.Count(fmt.Sprintf("(cold-start seed=%d)", seed), true, "cold-start")
+			txt := string(out)
+			for _, ln := range strings.Split(txt, "\n") {
+				if strings.HasPrefix(ln, "COLD-MISMATCH") {
+					r.Add(Finding{Kind: "instance", What: "the first uses of the library, made concurrently in a fresh process, return something else than the same operations alone",
+						Case: fmt.Sprintf("(cold-start seed=%d)", seed), Expected: "the sequential result", Observed: ln})
+				}
+			}
+			if !strings.Contains(txt, "COLD-DONE") {
+				if len(txt) > 3000 {
+					txt = txt[len(txt)-3000:]
+				}
+				if err != nil && strings.Contains(txt, "fatal error: concurrent map") {
+					r.Add(Finding{Kind: "instance", What: "the Go runtime aborted a fresh process during its first, concurrent uses of the library", Case: fmt.Sprintf("(cold-start seed=%d)", seed), Expected: "no abort", Observed: txt})
+				} else {
+					r.Notes = appendOnce(r.Notes, "cold-start child did not finish: "+txt)
+				}
+			}
+		}
 	}
 	raceOn := raceEnabled
 	r.Notes = append(r.Notes, fmt.Sprintf("race detector compiled in: %v", raceOn))
@@ -398,4 +433,52 @@ func runC18(c *Ctx) error {
 		}
 	}
 	return nil
+}
+
+// ---------- cold start ----------
+// A registry or table that is built lazily on first use is only at risk during the FIRST uses of a process; every
+// fixture the runner prepares warms the library up.  So the runner re-executes itself a few times as a fresh process
+// (VERIF_COLD=<seed>) in which the very first calls into the library are made by 48 goroutines at once - operations that
+// need no fixture - and are compared afterwards with the sequential run of the same operations.  Race-detector reports
+// of the children land in the same log files as the parent's.
+var coldKinds = []int{5, 6, 7, 8, 9, 10, 16, 17, 0, 1, 3}
+
+func coldStart(seed uint64) {
+	setSolo(false)
+	const n = 48
+	seeds := make([]uint64, n)
+	sr := NewRng(seed)
+	for i := range seeds {
+		seeds[i] = sr.U64()
+	}
+	op := func(g int) string {
+		gr := NewRng(seeds[g])
+		return concOpKind(coldKinds[g%len(coldKinds)], gr.Fork(), nil)
+	}
+	got := make([]string, n)
+	var wg sync.WaitGroup
+	start := make(chan struct{})
+	for g := 0; g < n; g++ {
+		wg.Add(1)
+		go func(g int) {
+			defer wg.Done()
+			<-start
+			got[g] = op(g)
+		}(g)
+	}
+	close(start)
+	wg.Wait()
+	for g := 0; g < n; g++ {
+		if want := op(g); want != got[g] && !strings.HasPrefix(want, "rand:") {
+			w, o := want, got[g]
+			if len(w) > 300 {
+				w = w[:300]
+			}
+			if len(o) > 300 {
+				o = o[:300]
+			}
+			fmt.Printf("COLD-MISMATCH kind=%d goroutine=%d seed=%d alone=%s concurrent=%s\n", coldKinds[g%len(coldKinds)], g, seed, w, o)
+		}
+	}
+	fmt.Println("COLD-DONE")
 }
